@@ -264,6 +264,17 @@ func tokenisationRule(c *Check, rule string, fams map[string][]*StoreWrite) {
 			continue
 		}
 		x := c.P.Ex(fn)
+		// a segment of an iterator key is shortened by position or by an exact prefix, never by a character set:
+		// strings.Trim / TrimLeft / TrimRight take a cutset and also eat binary bytes that happen to be in it
+		for _, cs := range c.P.CallsInOwn(fn) {
+			switch cs.Name {
+			case "strings.Trim", "strings.TrimLeft", "strings.TrimRight", "bytes.Trim", "bytes.TrimLeft", "bytes.TrimRight":
+				a := c.P.ArgExprs(cs)
+				if len(a) == 2 && a[0].Contains(func(e *Expr) bool { return e.IsCall("types.Iterator.Key") }) {
+					c.Bad(rule, funcName(fn)+"/"+cs.Name+" on an iterator key", cs.Ins.Pos(), cs.Name+" removes every leading/trailing byte that occurs in its second argument (a cutset, not a prefix): binary components (heights) whose first bytes are among those characters are shortened and the entry is mis-parsed or skipped")
+				}
+			}
+		}
 		for _, cs := range c.P.CallsInOwn(fn) {
 			if cs.Name != "strings.Split" && cs.Name != "strings.SplitN" && cs.Name != "bytes.Split" && cs.Name != "bytes.SplitN" {
 				continue
